@@ -656,3 +656,25 @@ pub fn preds_of(succ: &[Vec<usize>]) -> Vec<Vec<usize>> {
     }
     p
 }
+
+/// A maximally lax presentation of a diagram: every hyperedge gets fresh copies of its incident
+/// nodes and the identifications with the original nodes are left as pending unification pairs.
+/// Quotienting the result gives back a diagram isomorphic to `p`.
+pub fn explode<O: Lbl, A: Lbl>(p: &POh<O, A>) -> PLax<O, A> {
+    let mut w = p.w.clone();
+    let mut q = vec![];
+    let mut e = vec![];
+    for x in &p.e {
+        let mut copy = |v: usize, w: &mut Vec<O>, q: &mut Vec<(usize, usize)>| -> usize {
+            w.push(p.w[v].clone());
+            let n = w.len() - 1;
+            // alternate the orientation of the pair
+            if n % 2 == 0 { q.push((v, n)) } else { q.push((n, v)) }
+            n
+        };
+        let s: Vec<usize> = x.s.iter().map(|&v| copy(v, &mut w, &mut q)).collect();
+        let t: Vec<usize> = x.t.iter().map(|&v| copy(v, &mut w, &mut q)).collect();
+        e.push(PEdge { l: x.l.clone(), s, t });
+    }
+    PLax { w, e, s: p.s.clone(), t: p.t.clone(), q }
+}
